@@ -1609,7 +1609,7 @@ fn main() -> std::process::ExitCode {
         "C19",
         "ELF images written by the harness from a model (ELF32/64, LSB/MSB, EM_386/X86_64/MIPS/PPC/AARCH64, 1-4 PT_LOAD segments with every R/W/X combination, zero-fill tails, non-load program headers, .symtab/.dynsym with FUNC/OBJECT/NOTYPE x local/global/weak x defined/undefined/zero-valued/absolute symbols, .dynamic, PLT and dynamic relocations) loaded with Elf::new at base B and at base 0, with user entries; about 5% of the cases are a main program plus one or two shared objects (EM_386, or MIPS o32 with a GOT) written to a scratch directory and linked with ElfLinker. Non-trivial single image = at least two segments with memsz > filesz in one of them, B != 0 and at least three different kinds of symbols; non-trivial link = at least two relocated words, of two kinds for EM_386, and a library base != 0. Distinct = (machine, class, endianness, per-segment flags/zero-fill shape, set of symbol kinds, alignment of B, PLT relocations present, number of user entries) resp. (number of objects, relocation kinds, number of relocations, segments per object)",
         Box::new(|_t: Tier| from_tape(1100, decode)),
-        |t| t.pick(80_000, 3_000_000),
+        |t| t.pick(600_000, 10_000_000),
         check,
     );
     spec.render = render;
